@@ -1,5 +1,6 @@
 """C15 - a subclass model means its parent's schema plus its own additions."""
 import copy
+import random
 
 from vlib import gen_dsl
 from vlib import gen_values as gv
@@ -34,7 +35,7 @@ REQUIRED_COUNTERS = (
      "isinstance.checked", "parent.snapshots", "childop.define", "childop.validate", "childop.prop_add",
      "childop.prop_del", "childop.prop_flip_required", "childop.class_kw", "prop.added", "prop.overridden",
      "falsy_override", "depth.3plus", "parent_reconfigured_before_subclassing",
-     "grandparent_reconfigured_after_parent_exists"]
+     "grandparent_reconfigured_after_parent_exists", "nested_literals.edits", "nested_literals.depth_2"]
     + [f"inherit.{k}" for k in CLASS_KWS] + [f"override.{k}" for k in CLASS_KWS]
 )
 FALSY = {
@@ -229,6 +230,64 @@ def reused_property_object(ctx, sut, fpm, idx):
         ctx.witness("parent_changed", {"reused_property": idx},
                     f"after a subclass re-declared the parent's Property object as `label`, the parent gives "
                     f"{after[0]} {fpm.fp_result(after[1]) if after[0] == 'ok' else after[2]!r}; before: {held}"[:500])
+
+
+def nested_inherited_literals(ctx, sut, idx):
+    """A subclass inherits keyword values that hold containers at several depths (a dict inside a default, a list
+    inside an enum member, the name lists of `dependencies`); editing any of them through the subclass - at
+    whatever depth - leaves the base class's value and verdicts alone."""
+    rng = random.Random(idx)
+    kws = {
+        "default": {"a": {"b": [1, {"c": 2}]}, "z": [[0]]},
+        "const": {"a": {"b": [1, {"c": 2}]}, "z": [[0]]},
+        "enum": [[1, 2], {"k": [1, {"m": []}]}, {"a": {"b": [1, {"c": 2}]}, "z": [[0]]}],
+        "required": ["a"],
+        "dependencies": {"a": ["z"], "z": ["a"]},
+    }
+    use = {key: copy.deepcopy(val) for key, val in kws.items() if key != "const" or idx % 3 == 0}
+    try:
+        from statham.schema.elements.meta import ObjectClassDict  # pylint: disable=import-outside-toplevel
+
+        parent = sut.ObjectMeta(f"DeepParent{idx}", (sut.Object,), ObjectClassDict(), **use)
+        classes = [parent]
+        for level in range(1 + idx % 3):
+            classes.append(sut.ObjectMeta(f"DeepChild{idx}_{level}", (classes[-1],), ObjectClassDict()))
+    except Exception as exc:  # pylint: disable=broad-except
+        ctx.count("nested_literals.refused." + type(exc).__name__)
+        return
+    probes = [{"a": {"b": [1, {"c": 2}]}, "z": [[0]]}, {"a": {"b": [1, {"c": 2}]}, "z": [[0, 9]]}, {}, {"a": 1},
+              {"a": {"b": [1, {"c": 2, "edited": 1}]}, "z": [[0]]}]
+
+    def observe(cls):
+        return ({key: copy.deepcopy(getattr(cls, key, None)) for key in use},
+                [sut.call(cls, copy.deepcopy(probe))[0] for probe in probes])
+
+    leaf = classes[-1]
+    for _ in range(4):
+        before = [observe(cls) for cls in classes[:-1]]
+        key = rng.choice(sorted(use))
+        node, path = getattr(leaf, key), [key]
+        # walk to a container at a random depth, then edit it in place
+        while True:
+            inner = [(k, v) for k, v in (node.items() if isinstance(node, dict) else enumerate(node))
+                     if isinstance(v, (list, dict))]
+            if not inner or rng.random() < 0.3:
+                break
+            step, node = rng.choice(inner)
+            path.append(step)
+        if isinstance(node, dict):
+            node["edited"] = 1
+        else:
+            node.append("edited")
+        ctx.evaluation()
+        ctx.count("nested_literals.edits")
+        ctx.count("nested_literals.depth_%d" % min(len(path) - 1, 3))
+        for cls, held in zip(classes[:-1], before):
+            if observe(cls) != held:
+                ctx.witness("parent_changed", {"nested_literals": idx},
+                            f"editing {path} in place on {leaf.__name__} changed {cls.__name__}: "
+                            f"{str(observe(cls))[:200]} (before: {str(held)[:200]})")
+                return
 
 
 def run_family(ctx, sut, monitors, fpm, rng, chain):
@@ -482,6 +541,7 @@ def run_shard(ctx):
     rng = ctx.rng
     for idx in range(8):
         reused_property_object(ctx, sut, fpm, idx + 8 * ctx.shard)
+        nested_inherited_literals(ctx, sut, idx + 8 * ctx.shard)
     for _ in range(ctx.params["families"]):
         chain = make_family(ctx, rng)
         run_family(ctx, sut, monitors, fpm, rng, chain)
@@ -493,6 +553,9 @@ def replay(case, ctx):
 
     if "reused_property" in case:
         reused_property_object(ctx, sut, fpm, case["reused_property"])
+        return
+    if "nested_literals" in case:
+        nested_inherited_literals(ctx, sut, case["nested_literals"])
         return
 
     run_family(ctx, sut, monitors, fpm, ctx.rng, case["chain"])
